@@ -94,11 +94,22 @@ def check_case(ctx, cs):
                 ctx.violate("operations." + op, tg, small, {"field": bad})
             if same_def(project(obj), sh):
                 ctx.violate("operations." + op, tg + ["input_modified"], small, {})
+        # every public view addresses the same points after the in-place operation (the views were read before it)
+        from ..histories import read_view
+        views = ["ctrlpts", "ctrlpts2d"] + (["weights", "ctrlptsw"] if sh["rat"] else [])
+        for v in views:
+            read_view(obj, v)
         ok, r = _try(ctx, "operations." + op, tg + ["inplace"], small, lambda: fn(obj, inplace=True))
         if ok:
             bad = same_def(project(obj), o["res"])
             if bad:
                 ctx.violate("operations." + op, tg + ["inplace"], small, {"field": bad})
+            else:
+                tw = build(o["res"])
+                for v in views:
+                    if not close_seq(read_view(obj, v), read_view(tw, v)):
+                        ctx.violate("operations." + op, tg + ["inplace", "view=" + v], small, {"view": v})
+                        break
     elif op == "sweep":
         vec = [float(x) for x in frv(o["vec"])]
         ok, r = _try(ctx, "sweeping.sweep_vector", tg, small, lambda: sweeping.sweep_vector(obj, vec))
